@@ -157,6 +157,69 @@ func holeFamily(r *rand.Rand, a *exact.Shape) *exact.Shape {
 	}
 }
 
+// notchedHole builds a polygon whose hole is a rectilinear concave ring rich
+// in redundant collinear vertices, and a partner whose vertices all lie
+// strictly inside that hole: whether the partner crosses the material that
+// sticks into the hole's concavities depends on its edges, not its vertices.
+func notchedHole(r *rand.Rand, kb exact.Kind) (*exact.Shape, *exact.Shape) {
+	hole := gen.RandOrtho(r, 2+r.Intn(4), 6, 2, 2)
+	for k := r.Intn(3); k > 0; k-- {
+		hole = gen.SplitEdges(r, hole)
+	}
+	hole = gen.Rotate(hole, r.Intn(len(hole)))
+	if r.Intn(2) == 0 {
+		hole = gen.Reverse(hole)
+	}
+	mn, mx := gen.Box(hole)
+	ext := exact.Ring{{X: mn.X - 2*gen.U, Y: mn.Y - 2*gen.U}, {X: mx.X + 2*gen.U, Y: mn.Y - 2*gen.U}, {X: mx.X + 2*gen.U, Y: mx.Y + 2*gen.U}, {X: mn.X - 2*gen.U, Y: mx.Y + 2*gen.U}}
+	if !exact.ValidPoly(ext, []exact.Ring{hole}) {
+		return nil, nil
+	}
+	a := &exact.Shape{Kind: exact.KPoly, Ext: ext, Holes: []exact.Ring{hole}}
+	hu := int64(gen.U / 2)
+	var inside []exact.P
+	for x := mn.X + hu; x < mx.X; x += hu {
+		for y := mn.Y + hu; y < mx.Y; y += hu {
+			if hole.Pip(exact.P{X: x, Y: y}) > 0 {
+				inside = append(inside, exact.P{X: x, Y: y})
+			}
+		}
+	}
+	if len(inside) < 3 {
+		return nil, nil
+	}
+	pick := func() exact.P { return inside[r.Intn(len(inside))] }
+	switch kb {
+	case exact.KPoly:
+		for try := 0; try < 10; try++ {
+			t := exact.Ring{pick(), pick(), pick()}
+			if r.Intn(2) == 0 {
+				t = append(t, pick())
+			}
+			if t.Area2() != 0 && t.Simple() {
+				return a, &exact.Shape{Kind: exact.KPoly, Ext: t}
+			}
+		}
+		return nil, nil
+	case exact.KRect:
+		p, q := pick(), pick()
+		if p.X == q.X || p.Y == q.Y {
+			return nil, nil
+		}
+		return a, &exact.Shape{Kind: exact.KRect, Pts: []exact.P{{X: min(p.X, q.X), Y: min(p.Y, q.Y)}, {X: max(p.X, q.X), Y: max(p.Y, q.Y)}}}
+	case exact.KPoint:
+		return a, &exact.Shape{Kind: exact.KPoint, Pts: []exact.P{pick()}}
+	}
+	pts := []exact.P{pick(), pick()}
+	if r.Intn(2) == 0 {
+		pts = append(pts, pick())
+	}
+	if pts[0] == pts[1] {
+		return nil, nil
+	}
+	return a, &exact.Shape{Kind: exact.KLine, Pts: pts}
+}
+
 // subShape builds a B from pieces of A (runs along A's boundary, sits on its
 // vertices, is a sub-polygon of it).
 func subShape(r *rand.Rand, a *exact.Shape, kind exact.Kind) *exact.Shape {
@@ -280,6 +343,12 @@ func randomPairs(c *mon.Ctx, o pairOpts, item *int, sink pairSink) {
 		case 0:
 			if hb := holeFamily(r, a); hb != nil {
 				b, fam = hb, "hole-family"
+			}
+		case 3:
+			if i%2 == 0 {
+				if na, nb := notchedHole(r, kb); na != nil {
+					a, b, fam = na, nb, "notched-hole"
+				}
 			}
 		case 1:
 			if sb := subShape(r, a, kb); sb != nil {
